@@ -19,6 +19,12 @@ def _combo_scenarios(quick):
         tgt = dumps.base_target(3, regions=[{"name": "app0", "len": 3000, "lead": 5, "above": "hole"}, {"name": "code", "len": 8192, "exec": True}])
         w = {"blamed": {"slot": 0} if c["crash_context"] else "main", "app_memory": [{"addr": {"region": "app0"}, "len": 3000}], **c}
         scns.append({"id": f"combo{i}", "target": tgt, "writer": w, "faults": {"start": 5 + 3 * i, "pre_len": 400000 if i % 2 else 0}})
+    # stream sizes spanning magnitudes: multi-MiB application regions and a thread list section of > 1 MiB
+    big = dumps.base_target(2, regions=[{"name": "big0", "len": 3 * 1024 * 1024 + 17, "lead": 3}, {"name": "big1", "len": 1536 * 1024}, {"name": "one", "len": 1},
+                                        {"name": "code", "len": 8192, "exec": True}])
+    big["threads"] += [{"mode": "pause", "stack_pages": 12, "sp_off": 100 + 64 * i} for i in range(30)]
+    scns.append({"id": "combo-big", "target": big, "faults": {"start": 11, "pre_len": 0},
+                 "writer": {"blamed": "main", "app_memory": [{"addr": {"region": r}, "len": n} for r, n in (("big0", 3 * 1024 * 1024 + 17), ("one", 1), ("big1", 1536 * 1024))]}})
     return scns
 
 
@@ -39,7 +45,7 @@ def c10(ck):
     # 2. one dump per destination call index with that call failing
     faulted = []
     for s, n in zip(base, ncalls):
-        ks = range(n) if not quick or n <= 120 else range(0, n)
+        ks = range(n) if (not quick or "big" not in s["id"]) else range(0, n, 3)
         for k in ks:
             f = dict(s.get("faults", {}), dest_fail_at=k)
             faulted.append(dict(s, id=f"{s['id']}/fail@{k}", faults=f, prefixes="last", observe=True))
